@@ -26,6 +26,11 @@ def matching_exists(valid):   # valid[i][j]: sig i valid under key j
     return m == 0
 
 
+def G_names():
+    from ..gen import programs as G
+    return G.names()
+
+
 def run(ctx: Ctx) -> Result:
     res = Result(rule=RULE)
     rng = ctx.sub_rng('c03')
@@ -161,6 +166,32 @@ def run(ctx: Ctx) -> Result:
     res.stats['verdicts'] = stats
     res.sample({'script': cases[0][2].hex()[:300], 'expected_true': cases[0][3], 'impl': outs[0][:80]})
     res.stats['search'] = 'each case judged on the implementation alone by brute-force injective matching with PyNaCl verify'
+    # whatever the interpreter leaves in the bytes-keyed part of the cache after a multisig check (nothing, on this tree) is writable
+    # by a witness: entries forged there must not stand in for signatures
+    def forged_memo():
+        cfg_ = vmrun.Cfg()
+        cache_ = {'sigfield1': b'memo-probe'}
+        ks_ = [0, 1, 2]
+        pks_ = [keys.pks[i] for i in ks_]
+        good = [keys.sks[i].sign(ref_msg(cache_, 0)).signature for i in ks_[:2]]
+        honest = build(good, pks_, 0)
+        o = vmrun.run_impl(cfg_, cache_, honest)
+        left = set()
+        for e in vmrun.fields(o).get('cache', '-').split(';'):
+            if e.startswith('b') and '=' in e: left.add(bytes.fromhex(e.split('=')[0][1:]))
+        left |= {b'cms', b'sigs', b'ok'}
+        junk = [V.rbytes(rng, 64), V.rbytes(rng, 64)]
+        for key_ in sorted(left):
+            for fmt in (lambda j, k: j + k, lambda j, k: k + j, lambda j, k: j, lambda j, k: k):
+                items = [fmt(junk[0], pks_[0]), fmt(junk[1], pks_[1])]
+                wit = b''.join(P(x) for x in items) + bytes([G_names()['WRITE_CACHE'], len(key_)]) + key_ + b'\x02'
+                script = wit + build(junk, pks_, 0)
+                res.note_case(('forged-memo', key_, script))
+                o2 = vmrun.run_impl(cfg_, cache_, script)
+                f2 = vmrun.fields(o2)
+                if f2['status'] == 'OK' and f2.get('stack', '').split(',')[-1] == 'ff':
+                    viol('CHECK_MULTISIG after a witness wrote cache[' + repr(key_) + ']: two random 64-byte strings counted as signatures', cache_, script, 'false or an error', o2[:120])
+    vmrun.in_big_thread(forged_memo)
     return res
 
 
